@@ -8,14 +8,15 @@ package datasource
 //@ ghost var gConvN Int
 //@ ghost var gConvRes Iface
 //@ ghost var gConvErr Iface
+//@ ghost var gConvDone Int
 //@ ghost var gUpdN Int
 //@ ghost var gUpdArg Iface
 //@ ghost var gUpdRes Iface
 //@ callback PropertyConverter(src) (r, err)
 //@   panics may
-//@   always gConvN == old(gConvN) + 1
+//@   always gConvN == old(gConvN) + 1 && (panicked() ==> gConvDone == old(gConvDone)) && (!panicked() ==> gConvDone == gConvN)
 //@   ensures gConvRes == r && gConvErr == err
-//@   modifies gConvN, gConvRes, gConvErr
+//@   modifies gConvN, gConvDone, gConvRes, gConvErr
 //@ callback PropertyUpdater(data) err
 //@   panics may
 //@   always gUpdN == old(gUpdN) + 1 && gUpdArg == data
@@ -27,6 +28,7 @@ package datasource
 //@ func (h *DefaultPropertyHandler) Handle(src) err
 //@   props C18
 //@   requires h != nil
+//@   requires gConvDone <= gConvN
 //@   panics never
 //@   let u0 = gUpdN
 //@   let last0 = h.lastUpdateProperty
@@ -35,7 +37,9 @@ package datasource
 //@   ensures[updater-at-most-once] gUpdN <= u0 + 1
 //@   ensures[updater-gets-converted-value] gUpdN == u0 + 1 ==> gUpdArg == gConvRes && gConvErr == nil
 //@   ensures[result-is-updaters] gUpdN == u0 + 1 && err != nil ==> err == gUpdRes
-//@   ensures[identical-payload-is-noop] gConvN == old(gConvN) + 1 && gConvErr == nil && gConvRes == last0 ==> gUpdN == u0 && err == nil
+//@   ensures[identical-payload-is-noop] gConvN == old(gConvN) + 1 && gConvErr == nil && deepequal(gConvRes, last0) ==> gUpdN == u0 && err == nil
+//@   ensures[different-payload-reaches-updater] gConvDone == old(gConvN) + 1 && gConvErr == nil && !deepequal(gConvRes, last0) ==> gUpdN == u0 + 1
+//@   ensures[dedup-state-is-last-decoded-value] gConvDone == old(gConvN) + 1 && gConvErr == nil ==> deepequal(gConvRes, h.lastUpdateProperty)
 
 // ---- the rule updaters: nil clears, a []*Rule is loaded as given, anything else is rejected without loading
 //@ func FlowRulesUpdater(data) err
